@@ -274,7 +274,15 @@ def pmap(fn: Callable[[Any], dict], items: List[Any], procs: Optional[int] = Non
         return [_call((fn, it)) for it in items]
     ctx = mp.get_context("fork")
     with ctx.Pool(min(procs, len(items))) as pool:
-        return pool.map(_call, [(fn, it) for it in items], chunksize=chunksize)
+        if not os.environ.get("VERIF_PROGRESS"):
+            return pool.map(_call, [(fn, it) for it in items], chunksize=chunksize)
+        # progress on stderr (for sizing the thorough tier): items finished / total, every ~5 %
+        out, t0, step = [], time.time(), max(1, len(items) // 20)
+        for i, r in enumerate(pool.imap(_call, [(fn, it) for it in items], chunksize=chunksize)):
+            out.append(r)
+            if (i + 1) % step == 0:
+                print(f"[progress] {i + 1}/{len(items)} items after {time.time() - t0:.0f} s", file=sys.stderr, flush=True)
+        return out
 
 
 def trace_functions(fn: Callable[[], Any], prefix: str = "/repo/netqasm/") -> set:
